@@ -2,6 +2,7 @@ from __future__ import annotations
 
 import abc
 import inspect
+import typing
 import logging
 import threading
 from dataclasses import dataclass, field
@@ -272,6 +273,8 @@ class FromDAOState:
                 fixed_list = []
                 for v in value:
                     fixed_list.append(self.memo.get(id(v)))
+                if isinstance(getattr(result, key, None), (set, frozenset)):
+                    fixed_list = type(getattr(result, key))(fixed_list)
                 setattr(result, key, fixed_list)
                 if any(id(v) in self.in_progress for v in value):
                     unfinished_refs[key] = value
@@ -787,10 +790,37 @@ class DataAccessObject(HasGeneric[T]):
                 parsed_list, circular_list = state.parse_collection(value)
                 if circular_list:
                     circular_refs[relationship.key] = circular_list
+                if relationship.key in self._set_valued_fields():
+                    parsed_list = set(parsed_list)
                 rel_kwargs[relationship.key] = parsed_list
             else:
                 raise UnsupportedRelationshipError(relationship)
         return rel_kwargs, circular_refs
+
+    @classmethod
+    @lru_cache(maxsize=None)
+    def _set_valued_fields(cls) -> frozenset:
+        """
+        :return: The names of the fields of the original class that are declared as sets. Relationship collections are
+            lists, so these fields have to be converted back.
+        """
+        try:
+            type_hints = typing.get_type_hints(cls.original_class())
+        except Exception:
+            return frozenset()
+        set_valued_fields = set()
+        for name, type_hint in type_hints.items():
+            candidates = (
+                typing.get_args(type_hint)
+                if typing.get_origin(type_hint) is typing.Union
+                else (type_hint,)
+            )
+            if any(
+                typing.get_origin(candidate) in (set, frozenset)
+                for candidate in candidates
+            ):
+                set_valued_fields.add(name)
+        return frozenset(set_valued_fields)
 
     def _build_base_kwargs_for_alternative_parent(
         self,
